@@ -285,7 +285,13 @@ def _digests(seed, tier, lo, hi):
     out = []
     for idx in range(lo, hi):
         sc = gen(run_seed(seed, ID, idx), tier)
-        _, res = result_of(sc)
+        try:
+            _, res = result_of(sc)
+        except Exception as x:
+            # (an exception inside the library is a digest of its own here - the main runs report it as a violation)
+            if driver.classify_exception(x) != "sut":
+                raise
+            res = {"digest": "exception:" + type(x).__name__}
         out.append(res["digest"])
     return out
 
